@@ -64,6 +64,7 @@ type Exec struct {
 	frameDone bool
 	frameOrd int
 	ptrs     map[string]*Ptr
+	pendingMapHavoc map[string]bool
 	allocsByName map[string][]*ssa.Alloc
 }
 
@@ -563,6 +564,10 @@ func (x *Exec) havocLoop(st *State, li *LoopInfo) {
 				markAddr(i.Addr)
 			case *ssa.MapUpdate:
 				mt := i.Map.Type().Underlying().(*types.Map)
+				x.mapDom(st, mt) // registers the arrays and their sorts
+				for _, lf := range flatten(mt.Elem()) {
+					x.mapVal(st, mt, lf)
+				}
 				for _, n := range mapHeapNames(mt) {
 					heapSet[n] = true
 				}
@@ -635,14 +640,24 @@ func (x *Exec) havocLoop(st *State, li *LoopInfo) {
 		st.cells[c] = nv
 	}
 	if all {
-		x.havocAllHeap(st)
-	} else {
+		x.havocAllHeap(st) // objects that never escaped this activation are preserved here ...
+	}
+	{
+		// ... but whatever the loop body itself stores to is forgotten in any case
 		var names []string
 		for n := range heapSet {
 			names = append(names, n)
 		}
 		sort.Strings(names)
 		for _, n := range names {
+			if _, isMap := x.mapInfo[n]; isMap || strings.HasPrefix(n, "MapD:") || strings.HasPrefix(n, "MapV:") {
+				if srt, ok := x.mapInfo[n]; ok {
+					st.heap[n] = x.fresh(st, n, srt)
+				} else {
+					panic(unsupported{"UNSUPPORTED: map array " + n + " modified in a loop before its sort is known"})
+				}
+				continue
+			}
 			x.heapHavoc(st, n)
 		}
 	}
